@@ -83,6 +83,15 @@ Json::Value gen() {
     pr["yield"] = R(0, 3);
     c["producers"].append(pr);
   }
+  // a single line around or above the whole 1 MiB budget (never admissible
+  // above it, whatever the backlog)
+  if (P(8)) {
+    Json::Value& ls = c["producers"][R(0, np - 1)]["lines"];
+    int at = R(0, (int)ls.size() - 1);
+    ls[at] = P(50) ? R((int)kCap - 64, (int)kCap + 64) : R((int)kCap + 1, (int)kCap + 400000);
+    c["oversized"] = true;
+    if (P(50)) ls[R(0, (int)ls.size() - 1)] = R((int)kCap + 1, 3 * (int)kCap);
+  }
   int mode = W({35, 20, 45});
   c["sink"]["mode"] = mode == 0 ? "fast" : mode == 1 ? "slow" : "block";
   c["sink"]["after"] = P(50) ? 0 : R(0, 200000);
@@ -247,6 +256,7 @@ Verdict run(const Json::Value& c) {
     if (offered > kCap) v.nontrivial = true;
     if (np >= 2) v.nontrivial = true;
   }
+  if (c.get("oversized", false).asBool()) v.labels.push_back("line_near_or_above_cap");
   if (reportedDropped) v.labels.push_back("dropped");
   if (offered > kCap) v.labels.push_back("offered_above_cap");
   v.labels.push_back("sink_" + mode);
